@@ -141,6 +141,7 @@ func (c12Driver) Gen(seed uint64, tier string) *simrt.Spec {
 	if w.ViaGenerator && r.Chance(1, 2) {
 		w.Twice = true
 	}
+	w.Fresh = w.Twice && r.Chance(1, 2)
 	sp.Driver, _ = json.Marshal(w)
 	return sp
 }
@@ -157,22 +158,26 @@ func (c12Driver) Run(spec *simrt.Spec, agg *Agg, keep bool) *Outcome {
 	res := w.Run(func() {
 		// what the parties hand in: built once; a party that keeps its objects hands the same ones
 		// in again in a later generation (work.Twice), and they must still say what they said
-		all := make([][]*plugin.Generated, len(work.Feeds))
-		for fi, fd := range work.Feeds {
-			for i := range fd.Items {
-				it := &fd.Items[i]
-				g := &plugin.Generated{Content: it.Content}
-				if it.Name != "" {
-					nm := it.Name
-					g.Name = &nm
+		build := func() [][]*plugin.Generated {
+			all := make([][]*plugin.Generated, len(work.Feeds))
+			for fi, fd := range work.Feeds {
+				for i := range fd.Items {
+					it := &fd.Items[i]
+					g := &plugin.Generated{Content: it.Content}
+					if it.Name != "" {
+						nm := it.Name
+						g.Name = &nm
+					}
+					if it.IP != "" || it.IPSet {
+						ip := it.IP
+						g.InsertionPoint = &ip
+					}
+					all[fi] = append(all[fi], g)
 				}
-				if it.IP != "" || it.IPSet {
-					ip := it.IP
-					g.InsertionPoint = &ip
-				}
-				all[fi] = append(all[fi], g)
 			}
+			return all
 		}
+		all := build()
 		gens := 1
 		if work.Twice {
 			gens = 2
@@ -181,12 +186,21 @@ func (c12Driver) Run(spec *simrt.Spec, agg *Agg, keep bool) *Outcome {
 			// the same history through Generator.Generate: one Generator for all generations, the first
 			// party is the backend, the others are SDK plugins
 			var g generator.Generator
-			_ = g.RegisterBackend(&c12Backend{files: all[0]})
+			c12Be := &c12Backend{files: all[0]}
+			_ = g.RegisterBackend(c12Be)
 			var sdks []plugin.SDKPlugin
 			for fi := 1; fi < len(work.Feeds); fi++ {
 				sdks = append(sdks, &c12SDK{name: work.Feeds[fi].Src, files: all[fi]})
 			}
 			for gen := 0; gen < gens; gen++ {
+				if gen > 0 && work.Fresh {
+					// the same command again: newly built objects that say the same
+					fresh := build()
+					c12Be.files = fresh[0]
+					for k, sp := range sdks {
+						sp.(*c12SDK).files = fresh[k+1]
+					}
+				}
 				r := g.Generate(&generator.Arguments{Out: &generator.LangSpec{Language: "c12", SDKPlugins: sdks}, Req: &plugin.Request{Language: "c12", OutputPath: "."}, Log: backend.DummyLogFunc()})
 				if e := r.GetError(); e != "" {
 					feedErr, errAt = fmt.Errorf("%s", e), -2
@@ -197,6 +211,9 @@ func (c12Driver) Run(spec *simrt.Spec, agg *Agg, keep bool) *Outcome {
 			return
 		}
 		for gen := 0; gen < gens; gen++ {
+			if gen > 0 && work.Fresh {
+				all = build()
+			}
 			fm := generator.NewFileManager(backend.DummyLogFunc())
 			for fi, fd := range work.Feeds {
 				if err := fm.Feed(fd.Src, all[fi]); err != nil {
